@@ -21,6 +21,19 @@ from ref import rv32, arm32
 from props import _rv, _arm
 
 PROPERTY = "C08"
+
+# further instruction sets, each in its own module props/_c08_<isa>.py (+ reference decoder ref/<isa>dec.py): the module
+# exposes FACTORIES (names of harness factories, injected here so that the runner resolves them), jobs(tier, seed) and
+# BOUNDS_NOTE / OUTSIDE_NOTE / ASSUMPTIONS_NOTE strings that are appended to this module's evidence texts
+_EXTRA_ISA = []
+for _name in ("_c08_mips", "_c08_thumb", "_c08_msp430"):
+    try:
+        _m = __import__("props." + _name, fromlist=["*"])
+    except ImportError:
+        continue
+    for _f in _m.FACTORIES:
+        globals()[_f] = getattr(_m, _f)
+    _EXTRA_ISA.append(_m)
 LEVEL = "model_checking"
 BOUNDS = {
     "quick": {"registers": "riscv: every register number 0..31 (CSR: 0..4095); arm: every register number 0..15 (incl. sp, lr, pc); "
@@ -401,7 +414,17 @@ def jobs(tier, seed):
         js.append(("mk_pseudo", dict(arch=arch, idx=idx, cls=cls, mn=mn, ks=ks, wide=int(tier == "thorough"))))
     js += arm_jobs(tier)
     js += x86_jobs(tier, seed)
+    for _m in _EXTRA_ISA:
+        js += _m.jobs(tier, seed)
     only = os.environ.get("VERIF_ONLY")
     if only:
         js = [j for j in js if only in repr(j)]
     return js
+
+
+for _m in _EXTRA_ISA:
+    for _t in ("quick", "thorough"):
+        BOUNDS[_t] = dict(BOUNDS[_t])
+        BOUNDS[_t][_m.__name__.split("_c08_")[-1]] = getattr(_m, "BOUNDS_NOTE", "")
+    OUTSIDE = OUTSIDE + list(getattr(_m, "OUTSIDE_NOTE", []))
+    ASSUMPTIONS = ASSUMPTIONS + list(getattr(_m, "ASSUMPTIONS_NOTE", []))
